@@ -85,6 +85,40 @@ class Session(object):
                 out.append('lemma.' + n)
         return out
 
+    def generate(self, full):
+        from .exec import Obligation
+        t0 = time.time()
+        spec = self.resolver(full)
+        res = {'func': full, 'error': None}
+        try:
+            if full.startswith('lemma.'):
+                lem = self.specs.lemmas[full[6:]]
+                v = LemmaVerifier(self.prog, self.specs, lem, lem.pkg, resolver=self.resolver)
+            else:
+                v = Verifier(self.prog, self.specs, full, resolver=self.resolver)
+                v.spec = spec
+                if spec:
+                    v.wrap_types = set()
+                    for w in spec.opts.get('wrap', []):
+                        v.wrap_types |= set(w.replace(',', ' ').split())
+                    v.track_init = any('init' in x for x in spec.opts.get('track', []))
+                    v.check_wide_ovf = any('int' in x.split() for x in spec.opts.get('ovf', []))
+            ctx = v.run()
+        except (Unsupported, SpecError) as ex:
+            res['error'] = '%s: %s' % (type(ex).__name__, ex)
+            return res
+        obs = list(ctx.obligations)
+        cn = Obligation(short_fn(full) + '/canary.requires', 'canary', TRUE, FALSE, 0, v.entry_nassert)
+        cn.trivial = False
+        obs.append(cn)
+        for i, (pc, line) in enumerate(v.returns):
+            cn = Obligation(short_fn(full) + '/canary.return#%d' % i, 'canary', pc, FALSE, line or 0, len(ctx.asserts))
+            cn.trivial = False
+            obs.append(cn)
+        res.update({'ctx': ctx, 'obs': obs, 'verifier': v, 'trusted': sorted(v.trusted), 'notes': sorted(set(ctx.notes)), 'gen_s': time.time() - t0,
+                    'loop_problems': v.loop_problems})
+        return res
+
     def verify_function(self, full, timeout=10, jobs=16, prop=None, verbose=False):
         spec = self.resolver(full)
         res = {'func': full, 'obligations': [], 'error': None}
@@ -154,6 +188,222 @@ class Session(object):
         return res
 
 
+PROPS = {
+    'C01': ['src/util', 'src/algo', 'src'],
+    'C02': ['src/util', 'src/algo'],
+    'C03': ['src/util', 'src/algo'],
+    'C04': ['src/util', 'src/algo', 'src'],
+    'C05': ['src/util', 'src/algo'],
+    'C06': ['src/util', 'src/algo', 'src'],
+    'C07': ['src/util', 'src/algo', 'src'],
+    'C09': ['src/util', 'src/algo', 'src'],
+    'C10': ['src/util', 'src/algo', 'src'],
+    'C11': ['src/util', 'src/algo', 'src'],
+    'C12': ['src/util', 'src/algo', 'src'],
+    'C14': ['src/util', 'src/algo', 'src', 'src/tui'],
+    'C16': ['src/util', 'src/algo', 'src'],
+    'C17': ['src/util', 'src/algo', 'src'],
+    'C18': ['src/util', 'src/algo', 'src'],
+    'C19': ['src/util', 'src/algo', 'src'],
+}
+
+
+def load_known(path):
+    known = {}
+    fixed = []
+    if os.path.exists(path):
+        for line in open(path):
+            line = line.strip()
+            if line.startswith('finding:'):
+                mp = re.search(r'property=(\S+)', line)
+                mo = re.search(r'obligation=(\S+)', line)
+                if mp and mo:
+                    known.setdefault(mp.group(1), {})[mo.group(1)] = line
+            elif line.startswith('fixed:'):
+                fixed.append(line)
+    return known, fixed
+
+
+def check_property(prop, tier, seed):
+    t0 = time.time()
+    timeout = 10 if tier == 'quick' else 60
+    pkgs = [MOD + '/' + p for p in PROPS[prop]]
+    evidence_path = os.path.join(VERIF, 'evidence', prop + '.json')
+    os.makedirs(os.path.dirname(evidence_path), exist_ok=True)
+    replay_dir = os.path.join(VERIF, 'replay', prop)
+    violations = []      # (obligation name, replay path, no_input)
+    known, fixed = load_known(os.path.join(VERIF, 'known_findings.txt'))
+    known = known.get(prop, {})
+    lock = {}
+    lp = os.path.join(VERIF, 'obligations.lock.json')
+    if os.path.exists(lp):
+        lock = json.load(open(lp)).get(prop, {})
+    try:
+        ses = Session(pkgs)
+    except Exception as ex:
+        os.makedirs(replay_dir, exist_ok=True)
+        rp = os.path.join(replay_dir, 'load.json')
+        json.dump({'property': prop, 'obligation': 'load', 'error': str(ex)}, open(rp, 'w'), indent=1)
+        print('VIOLATION property=%s replay=%s no-failing-input-found' % (prop, rp))
+        write_evidence(evidence_path, prop, tier, seed, [], {}, time.time() - t0, 1, ['load failed: %s' % ex], None)
+        return 1
+    funcs = ses.claimed_functions(prop)
+    results = []
+    for k in ses.unbound:
+        sp = ses.specs.funcs[k]
+        if prop in sp.props:
+            results.append({'func': k, 'error': 'binding: contract names a function that does not exist in the source', 'obligations': []})
+    # generate all VCs, then solve everything in one pool
+    gens = []
+    for f in funcs:
+        gens.append(ses.generate(f))
+    allobs = []
+    for g in gens:
+        if g.get('error'):
+            results.append(g)
+            continue
+        for ob in g['obs']:
+            allobs.append((g, ob))
+
+    def work(pair):
+        g, ob = pair
+        if ob.kind == 'canary':
+            r = solve.check(g['ctx'], ob, 2, ses.workdir, order=('z3new',))
+        else:
+            r = solve.check(g['ctx'], ob, timeout, ses.workdir)
+        ob.result = r
+        return pair
+    with ThreadPoolExecutor(max_workers=16) as pool:
+        list(pool.map(work, allobs))
+    nob = ndis = 0
+    by_backend = {}
+    solver_s = 0.0
+    samples = []
+    trusted = set()
+    notes = set()
+    fun_report = []
+    vac_problems = []
+    for g in gens:
+        if g.get('error'):
+            continue
+        fo = fd = 0
+        names = set()
+        for ob in g['obs']:
+            r = ob.result
+            if ob.kind == 'canary':
+                continue
+            nob += 1
+            fo += 1
+            names.add(ob.name)
+            solver_s += r['time']
+            if r['status'] == 'unsat':
+                ndis += 1
+                fd += 1
+                by_backend[r['solver']] = by_backend.get(r['solver'], 0) + 1
+                if len(samples) < 6 and r['solver'] != 'trivial' and ob.kind in ('post', 'inv', 'lemma', 'pre'):
+                    samples.append({'obligation': ob.name, 'kind': ob.kind, 'clause': ob.info.get('clause'), 'line': ob.line, 'backend': r['solver'], 'time_s': round(r['time'], 3)})
+            else:
+                handle_failure(prop, g, ob, ses, replay_dir, violations, known)
+        cans = [ob for ob in g['obs'] if ob.kind == 'canary']
+        if cans and cans[0].result['status'] == 'unsat':
+            vac_problems.append('%s: requires unsatisfiable' % short_fn(g['func']))
+        rets = [c_.result['status'] for c_ in cans[1:]]
+        if rets and all(x == 'unsat' for x in rets):
+            vac_problems.append('%s: no return reachable' % short_fn(g['func']))
+        if fo == 0:
+            vac_problems.append('%s: zero obligations generated' % short_fn(g['func']))
+        missing = [n for n in lock.get(short_fn(g['func']), []) if n not in names]
+        for n in missing:
+            vac_problems.append('%s: obligation %s recorded in obligations.lock is no longer generated' % (short_fn(g['func']), n))
+        trusted |= set(g['trusted'])
+        notes |= set(g['notes'])
+        fun_report.append({'function': short_fn(g['func']), 'obligations': fo, 'discharged': fd, 'gen_s': round(g['gen_s'], 2)})
+    for f in lock:
+        if not any(short_fn(g['func']) == f for g in gens):
+            vac_problems.append('%s: function recorded in obligations.lock has no contract bound any more' % f)
+    for r in results:
+        os.makedirs(replay_dir, exist_ok=True)
+        name = short_fn(r['func']) + '/binding'
+        rp = os.path.join(replay_dir, re.sub(r'[^A-Za-z0-9_.#@-]', '_', name) + '.json')
+        json.dump({'property': prop, 'obligation': name, 'status': 'error', 'reason': r['error'],
+                   'note': 'the function left the verifiable subset or a contract stopped binding; no solver model exists'}, open(rp, 'w'), indent=1)
+        violations.append((name, rp, True))
+    for vp in vac_problems:
+        os.makedirs(replay_dir, exist_ok=True)
+        name = 'vacuity/' + vp.split(':')[0]
+        rp = os.path.join(replay_dir, re.sub(r'[^A-Za-z0-9_.#@-]', '_', name) + '.json')
+        json.dump({'property': prop, 'obligation': name, 'status': 'vacuity', 'reason': vp}, open(rp, 'w'), indent=1)
+        violations.append((name, rp, True))
+    for name, rp, noinput in violations:
+        print('VIOLATION property=%s replay=%s%s' % (prop, rp, ' no-failing-input-found' if noinput else ''))
+    cov = {
+        'obligations': nob, 'discharged': ndis,
+        'checker_cmd': 'cd /verif && ./gowp check %s --tier %s' % (prop, tier),
+        'trusted_base': sorted(trusted) + ['SMT solvers z3 4.8.12 / z3 5.1.0 / cvc5 1.0', 'go/ssa (x/tools v0.29.0) NaiveForm translation', 'gowp VC generator (this directory)'],
+        'functions_under_contract': fun_report,
+        'by_backend': by_backend,
+        'solver_s': round(solver_s, 2),
+        'load_s': round(ses.load_s, 2),
+        'samples': samples,
+        'vacuity': {'canaries': sum(1 for g in gens if not g.get('error') for ob in g['obs'] if ob.kind == 'canary'), 'problems': vac_problems},
+        'timeout_s': timeout,
+        'errors': [{'function': short_fn(r['func']), 'error': r['error']} for r in results],
+    }
+    assumptions = sorted(notes) + ['termination only where a decreases clause is given', 'goroutines, channels, OS interaction are outside the verified subset',
+                                   'contracts of callees are assumed at call sites and proved separately (modular verification)']
+    shutil.rmtree(ses.workdir, ignore_errors=True)
+    write_evidence(evidence_path, prop, tier, seed, cov, None, time.time() - t0, len(violations), assumptions, None)
+    return 1 if violations else 0
+
+
+def handle_failure(prop, g, ob, ses, replay_dir, violations, known):
+    r = ob.result
+    if ob.name in known:
+        print('KNOWN-FINDING: property=%s %s' % (prop, known[ob.name]))
+        return
+    os.makedirs(replay_dir, exist_ok=True)
+    rp = os.path.join(replay_dir, re.sub(r'[^A-Za-z0-9_.#@-]', '_', ob.name) + '.json')
+    rec = {'property': prop, 'obligation': ob.name, 'kind': ob.kind, 'function': g['func'], 'line': ob.line, 'clause': ob.info.get('clause'),
+           'status': r['status'], 'solver': r['solver'], 'solver_output': (r.get('output') or '')[:4000],
+           'rerun': 'cd /verif && ./gowp check %s' % prop}
+    noinput = True
+    if r['status'] == 'sat':
+        try:
+            from . import replay
+            ok, details = replay.try_replay(ses, g, ob, r)
+            rec['replay'] = details
+            noinput = not ok
+        except Exception as ex:     # replay is best effort
+            rec['replay'] = {'error': '%s: %s' % (type(ex).__name__, ex)}
+    json.dump(rec, open(rp, 'w'), indent=1, default=str)
+    violations.append((ob.name, rp, noinput))
+
+
+def write_evidence(path, prop, tier, seed, cov, _unused, wall, nviol, assumptions, extra):
+    ev = {'property_id': prop, 'tier': tier, 'seed': seed, 'level': 'proof', 'coverage': cov or {'obligations': 0, 'discharged': 0, 'checker_cmd': '', 'trusted_base': []},
+          'assumptions': assumptions, 'wall_s': round(wall, 2), 'violations': nviol}
+    json.dump(ev, open(path, 'w'), indent=1, default=str)
+
+
+def write_lock(props):
+    lp = os.path.join(VERIF, 'obligations.lock.json')
+    lock = json.load(open(lp)) if os.path.exists(lp) else {}
+    for prop in (props or sorted(PROPS)):
+        ses = Session([MOD + '/' + p for p in PROPS[prop]])
+        d = {}
+        for f in ses.claimed_functions(prop):
+            g = ses.generate(f)
+            if g.get('error'):
+                print('lock: %s: %s' % (f, g['error']))
+                continue
+            d[short_fn(f)] = sorted(ob.name for ob in g['obs'] if ob.kind != 'canary')
+        lock[prop] = d
+        shutil.rmtree(ses.workdir, ignore_errors=True)
+        print('locked %s: %d functions, %d obligations' % (prop, len(d), sum(len(v) for v in d.values())))
+    json.dump(lock, open(lp, 'w'), indent=0, sort_keys=True)
+    return 0
+
+
 def main(argv=None):
     ap = argparse.ArgumentParser()
     ap.add_argument('cmd')
@@ -163,7 +413,13 @@ def main(argv=None):
     ap.add_argument('--func', action='append')
     ap.add_argument('-v', action='store_true')
     ap.add_argument('--dump', default=None)
+    ap.add_argument('--tier', default=os.environ.get('VERIF_TIER', 'quick'))
     a = ap.parse_args(argv)
+    if a.cmd == 'check':
+        seed = int(os.environ.get('VERIF_SEED', '0') or 0)
+        return check_property(a.args[0], a.tier, seed)
+    if a.cmd == 'lock':
+        return write_lock(a.args)
     pkgs = [MOD + '/' + p for p in a.pkgs.split(',')]
     if a.cmd == 'verify':
         ses = Session(pkgs)
